@@ -58,6 +58,17 @@ PLAIN = {'dict': dict, 'odict': OrderedDict, 'list': list, 'tuple': tuple, 'set'
          'frozenset': frozenset, 'obj': Obj, 'cobj': CObj}
 LOGGING = dict(PLAIN, dict=LogDict, odict=LogODict, list=LogList, tuple=LogTuple, obj=LogObj)
 
+
+
+def _falsy(cls):
+    """the same class, whose instances are falsy whatever they hold (a truth test is not an emptiness or
+    None test)"""
+    return type('Falsy' + cls.__name__, (cls,), {'__bool__': lambda self: False, '__slots__': ()} if issubclass(cls, tuple)
+                else {'__bool__': lambda self: False})
+
+
+FALSY_LOGGING = {k: (_falsy(v) if k in ('dict', 'odict', 'list', 'tuple', 'obj') else v) for k, v in LOGGING.items()}
+
 from glom import SKIP, STOP
 SENT = {'SKIP': SKIP, 'STOP': STOP, 'TK': ('a', 'b'), 'BY': b'ab'}      # TK: a compound (tuple) dict key
 
